@@ -81,6 +81,19 @@ const FILE_NAMES: [&str; 9] = [
 ];
 const OTHER_NAMES: [&str; 6] = ["notes.txt", "noext", ".lua", "x.lua.bak", "UP.LUA", "data.json"];
 const DIRS: [&str; 5] = ["", "sub", "sub/deep", "with space", "d.lua"];
+/// names whose extension merely looks like a Lua one: none of them may be processed
+const BYSTANDERS: [&str; 9] = [
+    "init.lua~",
+    "chunk.luac",
+    "impl.lua_old",
+    "x.luax",
+    "lua",
+    "mod.luau.bak",
+    "y.lua.bak",
+    "BIG.LUA",
+    "z.Luau",
+];
+const DOTTED_DIRS: [&str; 2] = ["dist.v2", "build/pkg-1.2.0"];
 
 fn is_lua(path: &str) -> bool {
     matches!(
@@ -172,6 +185,39 @@ fn generate(seed: u64, id: u64, disk: bool) -> Scenario {
         }
         _ => ("src/sub".into(), Some("out/nested".into()), "subdir->new-dir"),
     };
+    // ---- additions drawn from a second generator, so that the scenarios above keep their ids
+    let mut rng2 = Rng::new(seed.wrapping_mul(7919).wrapping_add(id).wrapping_add(0xABCDEF));
+    let (input, mut output, mut shape) = (input, output, shape);
+    if shape.starts_with("file") {
+        if rng2.chance(1, 3) && output.is_some() {
+            // single file into an EXISTING directory whose name contains a dot
+            let dir = *rng2.pick(&DOTTED_DIRS);
+            files.insert(format!("{}/README.md", dir), Content::NotLua);
+            output = Some(dir.to_owned());
+            shape = "file->existing-dotted-dir";
+        }
+        if rng2.chance(1, 3) {
+            // a project made of exactly one Lua file
+            let keep = input.clone();
+            files.retain(|path, _| *path == keep || !path.starts_with("src/"));
+        }
+    } else {
+        for _ in 0..(1 + rng2.below(3)) {
+            let dir = *rng2.pick(&DIRS);
+            let name = *rng2.pick(&BYSTANDERS);
+            let path = if dir.is_empty() {
+                format!("src/{}", name)
+            } else {
+                format!("src/{}/{}", dir, name)
+            };
+            let content = if rng2.chance(1, 2) {
+                Content::NotLua
+            } else {
+                Content::Good(rng2.below(50) as u32)
+            };
+            files.entry(path).or_insert(content);
+        }
+    }
     if disk && shape == "dir->existing-dir" && rng.chance(1, 2) {
         // unwritable destination: `out/sub` needs to be a directory for sources under src/sub,
         // make `out/with space` a plain file instead
@@ -195,7 +241,7 @@ fn generate(seed: u64, id: u64, disk: bool) -> Scenario {
                 Path::new(path).parent().unwrap().display(),
                 target
             );
-            if failing.contains(&target_path) || !is_lua(&target_path) {
+            if failing.contains(&target_path) || !is_lua(&target_path) || !files.contains_key(&target_path) {
                 faulty.push(path.clone());
             }
         }
